@@ -14,6 +14,7 @@ import AlgoVerif.Proofs.C07LSD
 import AlgoVerif.Proofs.C07Q3String
 import AlgoVerif.Proofs.C07MsdString
 import AlgoVerif.Proofs.C07MsdWords
+import AlgoVerif.Proofs.C07Gen
 /-!
 # C07 — every sort returns the sorted permutation of its input
 
@@ -149,3 +150,103 @@ theorem C07_msdInt (a : Array UInt64) :
 example : ∃ out, msdUint (Array.ofFn (n := 17) fun i => (UInt64.ofNat (i.val % 2) <<< 56) ||| UInt64.ofNat (17 - i.val)) = .ok out ∧
     out.toList = (Array.ofFn (n := 17) fun i => (UInt64.ofNat (i.val % 2) <<< 56) ||| UInt64.ofNat (17 - i.val)).toList.mergeSort uLe :=
   C07_msdUint _
+
+/-! ## the second tie: the Model REGENERATED from the source
+
+`AlgoVerif.Generated.Sort.*` (file `Generated/C07Gen.lean`) is produced from
+`/repo/sort/{insertion,selection,shell,heap,merge}.go` by the translator `/verif/extract/go2lean` on every run
+of this check (`bin/pre-C07`; scheme, subset and what is trusted: header of `extract/go2lean/main.go`).
+The hand Model gives every loop its own fuel; a generated definition recurses on the trip count in its counted
+loops and hands the ONE `fuel` its caller supplies to every other loop.  `C07_generated_X_refines` therefore
+says: for every slice, every comparator (no law assumed) and every fuel of at least the stated size, the hand
+Model's result is `diverge` (its own fuel ran out) or the generated definition returns exactly the same
+outcome — same slice, same panic.  `C07_generated_X` is the C07 statement about the generated definition
+itself.  An edit of the Go source that changes what a function computes changes the generated file and these
+stop checking.  Go's zero value of the element type is the `default` of the `Inhabited` instance. -/
+
+open AlgoVerif.Generated.Sort AlgoVerif.Outcome AlgoVerif.C07.Gen
+
+theorem C07_generated_insertion_refines {α : Type} [Inhabited α] (cmp : α → α → Int) (a : Array α) (fuel : Nat)
+    (hf : a.size + 1 ≤ fuel) : insertion cmp a = .diverge ∨ insertion cmp a = Insertion fuel a cmp := by
+  obtain ⟨d, rfl⟩ : ∃ d, fuel = a.size + 1 + d := ⟨fuel - (a.size + 1), by omega⟩
+  exact insertion_le cmp a d
+
+theorem C07_generated_insertion {α : Type} [Inhabited α] (cmp : α → α → Int) (tp : TotalPreorder cmp) (a : Array α)
+    (fuel : Nat) (hf : a.size + 1 ≤ fuel) : ∃ out, Insertion fuel a cmp = .ok out ∧ IsSortOf cmp out a := by
+  obtain ⟨out, h, s⟩ := C07_insertion cmp tp a
+  exact ⟨out, Outcome.le.ok (C07_generated_insertion_refines cmp a fuel hf) h, s⟩
+
+example : Insertion 6 #[(5, 0), (3, 1), (2, 2), (4, 3), (0, 4)] exCmp = .ok #[(3, 1), (0, 4), (4, 3), (5, 0), (2, 2)] := by decide
+
+/-- `Selection` has counted loops only: the generated definition takes no fuel -/
+theorem C07_generated_selection_refines {α : Type} [Inhabited α] (cmp : α → α → Int) (a : Array α) :
+    selection cmp a = .diverge ∨ selection cmp a = Selection a cmp := selection_le cmp a
+
+theorem C07_generated_selection {α : Type} [Inhabited α] (cmp : α → α → Int) (tp : TotalPreorder cmp) (a : Array α) :
+    ∃ out, Selection a cmp = .ok out ∧ IsSortOf cmp out a := by
+  obtain ⟨out, h, s⟩ := C07_selection cmp tp a
+  exact ⟨out, Outcome.le.ok (C07_generated_selection_refines cmp a) h, s⟩
+
+example : Selection #[(5, 0), (3, 1), (2, 2), (4, 3), (0, 4)] exCmp = .ok #[(3, 1), (0, 4), (4, 3), (2, 2), (5, 0)] := by decide
+
+theorem C07_generated_shell_refines {α : Type} [Inhabited α] (cmp : α → α → Int) (a : Array α) (fuel : Nat)
+    (hf : a.size + 2 ≤ fuel) : shell cmp a = .diverge ∨ shell cmp a = Shell fuel a cmp := by
+  obtain ⟨d, rfl⟩ : ∃ d, fuel = a.size + 2 + d := ⟨fuel - (a.size + 2), by omega⟩
+  exact shell_le cmp a d
+
+theorem C07_generated_shell {α : Type} [Inhabited α] (cmp : α → α → Int) (tp : TotalPreorder cmp) (a : Array α)
+    (fuel : Nat) (hf : a.size + 2 ≤ fuel) : ∃ out, Shell fuel a cmp = .ok out ∧ IsSortOf cmp out a := by
+  obtain ⟨out, h, s⟩ := C07_shell cmp tp a
+  exact ⟨out, Outcome.le.ok (C07_generated_shell_refines cmp a fuel hf) h, s⟩
+
+example : ∃ out, Shell 9 #[(5, 0), (3, 1), (2, 2), (4, 3), (0, 4), (7, 5), (1, 6)] exCmp = .ok out ∧
+    IsSortOf exCmp out #[(5, 0), (3, 1), (2, 2), (4, 3), (0, 4), (7, 5), (1, 6)] :=
+  C07_generated_shell _ exCmp_tp _ 9 (by decide)
+
+theorem C07_generated_heap_refines {α : Type} [Inhabited α] (cmp : α → α → Int) (a : Array α) (fuel : Nat)
+    (hf : a.size + 2 ≤ fuel) : heap cmp default a = .diverge ∨ heap cmp default a = Heap fuel a cmp := by
+  obtain ⟨d, rfl⟩ : ∃ d, fuel = a.size + 2 + d := ⟨fuel - (a.size + 2), by omega⟩
+  exact heap_le cmp default a d
+
+theorem C07_generated_heap {α : Type} [Inhabited α] (cmp : α → α → Int) (tp : TotalPreorder cmp) (a : Array α)
+    (fuel : Nat) (hf : a.size + 2 ≤ fuel) : ∃ out, Heap fuel a cmp = .ok out ∧ IsSortOf cmp out a := by
+  obtain ⟨out, h, s⟩ := C07_heap cmp tp default a
+  exact ⟨out, Outcome.le.ok (C07_generated_heap_refines cmp a fuel hf) h, s⟩
+
+example : ∃ out, Heap 7 #[(5, 0), (3, 1), (2, 2), (4, 3), (0, 4)] exCmp = .ok out ∧
+    IsSortOf exCmp out #[(5, 0), (3, 1), (2, 2), (4, 3), (0, 4)] := C07_generated_heap _ exCmp_tp _ 7 (by decide)
+
+/-- the internal `merge(a, aux, lo, mid, hi, cmp)`: returns the new `a` and `aux`; no fuel on the generated side -/
+theorem C07_generated_mergeStep_refines {α : Type} [Inhabited α] (cmp : α → α → Int) (a aux : Array α) (lo mid hi : Int) :
+    AlgoVerif.C07.merge cmp a aux lo mid hi = .diverge ∨
+      AlgoVerif.C07.merge cmp a aux lo mid hi = AlgoVerif.Generated.Sort.merge a aux lo mid hi cmp :=
+  merge_le cmp a aux lo mid hi
+
+theorem C07_generated_merge_refines {α : Type} [Inhabited α] (cmp : α → α → Int) (a : Array α) (fuel : Nat)
+    (hf : a.size + 1 ≤ fuel) : mergeBU cmp default a = .diverge ∨ mergeBU cmp default a = Merge fuel a cmp := by
+  obtain ⟨d, rfl⟩ : ∃ d, fuel = a.size + 1 + d := ⟨fuel - (a.size + 1), by omega⟩
+  exact mergeBU_le cmp default a d
+
+theorem C07_generated_merge {α : Type} [Inhabited α] (cmp : α → α → Int) (tp : TotalPreorder cmp) (a : Array α)
+    (fuel : Nat) (hf : a.size + 1 ≤ fuel) : ∃ out, Merge fuel a cmp = .ok out ∧ IsSortOf cmp out a := by
+  obtain ⟨out, h, s⟩ := C07_merge cmp tp default a
+  exact ⟨out, Outcome.le.ok (C07_generated_merge_refines cmp a fuel hf) h, s⟩
+
+example : ∃ out, Merge 6 #[(5, 0), (3, 1), (2, 2), (4, 3), (0, 4)] exCmp = .ok out ∧
+    IsSortOf exCmp out #[(5, 0), (3, 1), (2, 2), (4, 3), (0, 4)] := C07_generated_merge _ exCmp_tp _ 6 (by decide)
+example : Merge 3 #[(5, 0), (3, 1)] exCmp = .ok #[(3, 1), (5, 0)] := by decide
+
+theorem C07_generated_mergeRec_refines {α : Type} [Inhabited α] (cmp : α → α → Int) (a : Array α) (fuel : Nat)
+    (hf : a.size + 1 ≤ fuel) :
+    mergeRec cmp default a = .diverge ∨ mergeRec cmp default a = MergeRec fuel a cmp := by
+  obtain ⟨d, rfl⟩ : ∃ d, fuel = a.size + 1 + d := ⟨fuel - (a.size + 1), by omega⟩
+  exact mergeRec_le cmp default a d
+
+theorem C07_generated_mergeRec {α : Type} [Inhabited α] (cmp : α → α → Int) (tp : TotalPreorder cmp) (a : Array α)
+    (fuel : Nat) (hf : a.size + 1 ≤ fuel) : ∃ out, MergeRec fuel a cmp = .ok out ∧ IsSortOf cmp out a := by
+  obtain ⟨out, h, s⟩ := C07_mergeRec cmp tp default a
+  exact ⟨out, Outcome.le.ok (C07_generated_mergeRec_refines cmp a fuel hf) h, s⟩
+
+example : ∃ out, MergeRec 6 #[(5, 0), (3, 1), (2, 2), (4, 3), (0, 4)] exCmp = .ok out ∧
+    IsSortOf exCmp out #[(5, 0), (3, 1), (2, 2), (4, 3), (0, 4)] := C07_generated_mergeRec _ exCmp_tp _ 6 (by decide)
+example : MergeRec 3 #[(5, 0), (3, 1)] exCmp = .ok #[(3, 1), (5, 0)] := by decide
